@@ -1,5 +1,5 @@
 """Source tie for the invalidation logic of classes that keep derived values (C06: Rectangle, Circle, Polygon; C11:
-Lanelet, TrajectoryPrediction, Obstacle): for every public setter of a primary attribute, the sequence of effects it has
+Lanelet, TrajectoryPrediction, Obstacle, TrafficLightCycle): for every public setter of a primary attribute, the sequence of effects it has
 on the derived ("cache") attributes is parsed from the syntax tree on every run and written, with the dependency lists,
 to coq/Gen/Src_cachetable.v as rows of the table of coq/Model/CacheTable.v.  Proofs/CacheTable.v proves, for every table
 all of whose rows pass [setter_ok], coherence on every history; Props/C06.v / Props/C11.v instantiate it with the parsed
@@ -15,6 +15,7 @@ What a setter body may contain (anything else ends the part "that always happens
     self.m()                    (m(self) of the class)  the effects of m, inlined
     if self._a is not None and ...: self._k = <expr>    ERebuild k       (every operand tests a primary for None: the
                                                                          guard only matters while __init__ runs)
+    if hasattr(self, "k"): del self.k                   EDrop k
     if not hasattr(self, "_a"): self._a = v else: warn  nothing          (construction-only store: immutable attribute)
 The dependency list of a lazily filled cache is derived: the primaries read, through properties and methods of the class,
 by the getter that fills it; eagerly built caches name theirs in SPECS.
@@ -39,6 +40,7 @@ SHAPE = os.path.join("commonroad", "geometry", "shape.py")
 LANELET = os.path.join("commonroad", "scenario", "lanelet.py")
 PRED = os.path.join("commonroad", "prediction", "prediction.py")
 OBST = os.path.join("commonroad", "scenario", "obstacle.py")
+LIGHT = os.path.join("commonroad", "scenario", "traffic_light.py")
 
 # fills: derived attribute -> ("getter" | "method", name) that fills it lazily, or ("eager", [primaries])
 SPECS = [
@@ -65,6 +67,10 @@ SPECS = [
     dict(name="obstacle", prop="C11", file=OBST, cls="Obstacle", attrs=["_initial_state", "_obstacle_shape"],
          setters={"initial_state": "_initial_state", "obstacle_shape": "_obstacle_shape"},
          fills={"_initial_occupancy_shape": ("eager", ["_initial_state", "_obstacle_shape"])}),
+    dict(name="traffic_light_cycle", prop="C11", file=LIGHT, cls="TrafficLightCycle",
+         attrs=["_cycle_elements", "_time_offset", "_active"],
+         setters={"cycle_elements": "_cycle_elements", "time_offset": "_time_offset", "active": "_active"},
+         fills={"_cycle_init_timesteps": ("getter", "cycle_init_timesteps")}),
 ]
 
 
@@ -195,6 +201,13 @@ def effects(cv, fn, spec, cidx, depth=0):
                     and isinstance(s.body[0], ast.Delete) and len(s.body[0].targets) == 1 \
                     and self_attr(s.body[0].targets[0], self_) == t.left.value:
                 out.append(f"EDrop {cidx[t.left.value]}")
+                return True
+            # if hasattr(self, "k"): del self.k
+            if isinstance(t, ast.Call) and ast.unparse(t.func) == "hasattr" and len(t.args) == 2 and not s.orelse \
+                    and ast.unparse(t.args[0]) == self_ and isinstance(t.args[1], ast.Constant) \
+                    and t.args[1].value in caches and len(s.body) == 1 and isinstance(s.body[0], ast.Delete) \
+                    and len(s.body[0].targets) == 1 and self_attr(s.body[0].targets[0], self_) == t.args[1].value:
+                out.append(f"EDrop {cidx[t.args[1].value]}")
                 return True
             # if self._a is not None and self._b is not None: self._k = <expr>
             ops = t.values if isinstance(t, ast.BoolOp) and isinstance(t.op, ast.And) else [t]
